@@ -11,7 +11,7 @@ import re
 
 from .. import terms as T
 from ..fmt import LayoutError, float_format_slice_width, template_layout
-from ..model import AnalysisError, body_without_doc, call_name, cmp_triples, const_value, loc, unparse
+from ..model import AnalysisError, body_without_doc, call_name, cmp_triples, const_value, loc, parent_map, unparse
 from ..terms import Extract, F, Poly, Unsupported
 from .c01 import nf
 
@@ -256,7 +256,26 @@ def r12_2(chk):
     chk.inst("R12.2", f"{rf.ref}::name-line", ok, "a third (first) line is the name", loc(rf, rf.node))
     ok = "returncls(f'{name}{line1}\\n{line2}')" in wt
     chk.inst("R12.2", f"{wf.ref}::name-line", ok, "name line written first when there is a name" if ok else "changed", where)
-    chk.floor("R12.2", 26)
+    # implied-decimal codec: mantissa and exponent of one field come from ONE formatted string (so a rounding carry reaches
+    # the exponent), and the reader rebuilds `±.ddddd e±x`
+    from ..frozen import compare_formulas
+    for fn, what in (("_float", "implied-decimal reader"), ("_unfloat", "implied-decimal writer")):
+        g = chk.repo.func(TLE, fn)
+        compare_formulas(chk, "R12.2", f"{TLE}::{fn}", g.node, loc(g, g.node), what)
+    g = chk.repo.func(TLE, "_unfloat")
+    par = parent_map(g.node)
+    reads, renders = [], []
+    for n in ast.walk(g.node):
+        if isinstance(n, ast.Name) and n.id == "flt" and isinstance(n.ctx, ast.Load):
+            p = par.get(n)
+            if isinstance(p, ast.Compare):
+                continue
+            spec = unparse(p.format_spec) if isinstance(p, ast.FormattedValue) and p.format_spec is not None else ""
+            (renders if spec.rstrip("'\"").endswith("e") else reads).append(n)
+    ok = len(renders) == 1 and not reads
+    chk.inst("R12.2", f"{g.ref}::one-rounding", ok, "the value is read once, by a single %e rendering from which both mantissa and exponent are split: rounding to the next decade carries into the exponent" if ok else
+             f"the value is read {len(renders)} time(s) by an exponent rendering and {len(reads)} time(s) otherwise: mantissa and exponent are rounded separately, so a mantissa that rounds up to the next decade (0.999996) keeps the old exponent", loc(g, g.node))
+    chk.floor("R12.2", 29)
 
 
 def r12_3(chk):
